@@ -48,12 +48,19 @@ func main() {
 			os.Exit(2)
 		}
 		c.Tier = *tier
+		if *dump == "syms" {
+			dumpSyms(c)
+			return
+		}
 		if *dump == "funcs" {
 			for _, f := range c.AllFuncs() {
 				fmt.Println(f.Name)
 			}
 			if c.norm != nil {
 				fmt.Println("#", c.norm.summary())
+			}
+			if s := c.renames.summary(); s != "" {
+				fmt.Println("#", s)
 			}
 			return
 		}
